@@ -76,6 +76,9 @@ func gen(prop, tier string, r *Rng, out *bufio.Writer, st *Stats) {
 		genQuant(g, r, tier, true)
 	case "C08":
 		genC08(g, r, tier)
+		if tier == "thorough" && os.Getenv("VERIF_NO_SWEEP32") == "" {
+			genC08Sweep32(g)
+		}
 	case "C09":
 		genC09(g, r, tier)
 	case "C10":
